@@ -13,6 +13,7 @@ CONSTANTS
   RemoveCancels = TRUE
   CycleSkipsLocked = FALSE
   OfferSkipsLocked = TRUE
+  OfferSkipsOccupied = TRUE
 INVARIANT TypeOK
 INVARIANT AtMostOneNegotiation
 INVARIANT SlotsTrackLive
